@@ -24,6 +24,33 @@ namespace
 {
     std::string digest(const std::string& s) { return std::to_string(fnv1a(s) % 1000003); }
 
+    // Handlers of /stream/:id answer from a thread of their own, as a chunked stream with two flushes
+    // (what an application does when the result comes from a worker pool).  A writer holds a raw pointer
+    // to its transport, so all such threads are joined before the endpoint goes away; once `closed` is
+    // set the handler answers on the spot instead.
+    struct AsyncAnswers
+    {
+        std::mutex m;
+        bool closed = false;
+        std::vector<std::thread> th;
+        void open()
+        {
+            std::lock_guard<std::mutex> g(m);
+            closed = false;
+        }
+        void close_and_join()
+        {
+            std::vector<std::thread> t;
+            {
+                std::lock_guard<std::mutex> g(m);
+                closed = true;
+                t.swap(th);
+            }
+            for (auto& x : t)
+                x.join();
+        }
+    } g_async;
+
     struct Item
     {
         std::string method, path, body, tag;
@@ -36,6 +63,7 @@ namespace
     // the harness's own table of what exists (independent of the router implementation)
     //   /item/:id   GET PUT DELETE      /items   GET POST      /echo/*   POST
     //   /opt/:a/:b? GET                 /only-head HEAD        /only-options OPTIONS
+    //   /stream/:id GET (answered from another thread as a stream with two flushes)
     Item make_item(Choices& c, const std::string& tag)
     {
         Item it;
@@ -74,7 +102,17 @@ namespace
             allowed = { it.path == "/only-head" ? "HEAD" : "OPTIONS" };
             break;
         default:
-            it.path = "/nothing/" + id;
+            // (derived from the id already drawn: inputs saved before /stream existed keep every other choice)
+            if (atoi(id.c_str() + 1) % 3 == 0)
+            {
+                it.path         = "/stream/" + id;
+                allowed         = { "GET" };
+                it.expect_param = id;
+                if (atoi(id.c_str() + 1) % 12 != 3) // mostly the method that is answered
+                    it.method = "GET";
+            }
+            else
+                it.path = "/nothing/" + id;
         }
         if (it.method == "POST" || it.method == "PUT" || it.method == "PATCH")
             it.body = std::string(c.range(0, 200), char('a' + c.pick(26)));
@@ -129,6 +167,32 @@ namespace
         Rest::Routes::Get(*r, "/opt/:a/:b?", respond(":a"));
         Rest::Routes::Head(*r, "/only-head", respond(""));
         Rest::Routes::Options(*r, "/only-options", respond(""));
+        Rest::Routes::Get(*r, "/stream/:id", [](const Rest::Request& req, Http::ResponseWriter w) {
+            auto tag         = req.headers().tryGetRaw("X-Tag");
+            std::string body = (tag ? tag->value() : "?") + "|" + Http::methodString(req.method()) + "|" + req.param(":id").as<std::string>() + "|" + digest(req.body()) + "|";
+            std::lock_guard<std::mutex> g(g_async.m);
+            if (g_async.closed)
+            {
+                w.send(Http::Code::Ok, body);
+                return Rest::Route::Result::Ok;
+            }
+            std::string a = body.substr(0, body.size() / 2), b = body.substr(body.size() / 2);
+            g_async.th.emplace_back([a, b](Http::ResponseWriter wr) {
+                try
+                {
+                    auto st = wr.stream(Http::Code::Ok);
+                    st << a.c_str() << Http::flush;
+                    st << b.c_str() << Http::flush;
+                    st << Http::ends;
+                }
+                catch (const std::exception&)
+                {
+                    // the peer or the endpoint is going away
+                }
+            },
+                                    std::move(w));
+            return Rest::Route::Result::Ok;
+        });
         return r;
     }
 
@@ -241,6 +305,7 @@ namespace
         rep.sample(cfg + " e.g. " + plan[0][0].method + " " + plan[0][0].path + " -> " + std::to_string(plan[0][0].expect_status));
         auto router  = make_router();
         auto handler = std::make_shared<NullHandler>();
+        g_async.close_and_join(); // no transport here: /stream answers on the spot like every other route
         std::mutex m;
         std::string fail_sig, fail_msg;
         std::atomic<int> ready { 0 };
@@ -363,6 +428,8 @@ namespace verif
                     it.expect_allow = { "POST" };
                 else if (it.path.rfind("/opt/", 0) == 0)
                     it.expect_allow = { "GET" };
+                else if (it.path.rfind("/stream/", 0) == 0)
+                    it.expect_allow = { "GET" };
                 else if (it.path == "/only-head")
                     it.expect_allow = { "HEAD" };
                 else if (it.path == "/only-options")
@@ -377,12 +444,23 @@ namespace verif
         rep.label("workers=" + std::to_string(workers));
         if ((workers >= 2 && clients >= 2 && methods_used.size() >= 3) || shut != 0)
             rep.nontrivial_case(fnv1a(cfg, uint64_t(case_no)) ^ fnv1a(data, size));
+        {
+            size_t ns = 0;
+            for (auto& p : plan)
+                for (auto& it : p)
+                    ns += it.path.rfind("/stream/", 0) == 0 && it.expect_status == 200;
+            if (ns)
+                rep.label("answers-streamed-from-another-thread>0");
+            cfg += " async-streams=" + std::to_string(ns);
+        }
         std::string sample = cfg + " :: ";
         for (size_t i = 0; i < plan[0].size() && i < 6; ++i)
             sample += plan[0][i].method + " " + plan[0][i].path + "->" + std::to_string(plan[0][i].expect_status) + " ";
         rep.sample(sample);
 
         tsan_reports(tsan_from); // skip whatever earlier cases left
+        g_async.close_and_join();
+        g_async.open();
         int threads_before = net::thread_count();
         auto srv           = std::make_shared<net::Server>();
         srv->start(Rest::Router::handler(make_router()), workers, [](Http::Endpoint::Options& o) { o.maxRequestSize(16384); });
@@ -490,6 +568,7 @@ namespace verif
             for (auto& t : th)
                 t.join();
         // ---- shutdown ---------------------------------------------------------------------------
+        g_async.close_and_join(); // answers still being written from their own threads finish first (see AsyncAnswers)
         auto done = std::async(std::launch::async, [srv] { srv->stop(); });
         bool returned = done.wait_for(std::chrono::seconds(10)) == std::future_status::ready;
         if (shut == 2)
